@@ -72,6 +72,17 @@ func vfhC20SetOpTransparency() {
 	vfAssert(err == nil, "SymmetricDifference with an empty operand: no error")
 	inS, _ := vfLocIn(s, p)
 	vfAssert(inS == inPlain, "SymmetricDifference(empty, a) has a's point set")
+	// Union with an empty operand in either position is the self-union of the
+	// other operand, also when that operand is a collection of overlapping members
+	ov, err := UnmarshalWKT("GEOMETRYCOLLECTION(POLYGON((0 0,4 0,4 4,0 4,0 0)),POLYGON((2 2,6 2,6 6,2 6,2 2)),LINESTRING(1 1,3 3),LINESTRING(2 2,8 8))")
+	vfAssert(err == nil, "overlapping collection parses")
+	self, err := UnaryUnion(ov)
+	vfAssert(err == nil, "UnaryUnion: no error")
+	u1, err1 := Union(e, ov)
+	u2, err2 := Union(ov, e)
+	vfAssert(err1 == nil && err2 == nil, "Union with an empty operand: no error")
+	vfAssert(ExactEquals(u1, self) && ExactEquals(u2, self), "Union(empty, x) and Union(x, empty) are UnaryUnion(x)")
+	vfAssert(u1.Area() == 28 && u2.Area() == 28, "and have the area of the point set, not of the members")
 	uu, err := UnaryUnion(with)
 	vfAssert(err == nil, "UnaryUnion: no error")
 	inUU, _ := vfLocIn(uu, p)
